@@ -1,5 +1,6 @@
 SPECIFICATION Spec
 CONSTANTS Seeds = {1, 2, 3}
  OneGap = FALSE
+ WithStatic = FALSE
 INVARIANTS C15_TokensOrdered C15_Nesting EmitInv
 CHECK_DEADLOCK FALSE
